@@ -34,6 +34,19 @@ use std::sync::atomic::Ordering;
 use std::task::{Context, Poll};
 use tokio::sync::watch;
 
+/// Abstraction / determinism guards of the search. They protect the COMPLETENESS of the deduplicated
+/// pass; a change in the code under test that adds hidden state trips them together with real
+/// violations, so they are collected and only become a machinery failure when the run produced no
+/// violation at all (otherwise the violations are the verdict and the guard text goes into the
+/// evidence).
+static GUARD_TRIPS: std::sync::Mutex<Vec<String>> = std::sync::Mutex::new(Vec::new());
+fn guard_trip(msg: String) {
+    let mut g = GUARD_TRIPS.lock().unwrap();
+    if g.len() < 8 {
+        g.push(msg);
+    }
+}
+
 // ───────────────────────────── alphabet ─────────────────────────────
 
 const NL: usize = 21;
@@ -1021,7 +1034,7 @@ fn pass_nodedup(ci: usize, cfg: Cfg, d1: usize) -> (Acc, XTable) {
                     // determinism: every replay of the same prefix must reach the same canon
                     match &cp {
                         None => cp = Some(r.canon_prefix),
-                        Some(c) if *c != r.canon_prefix => vh::machinery_failure(&format!(
+                        Some(c) if *c != r.canon_prefix => guard_trip(format!(
                             "replay nondeterminism: prefix {:?} reached different canonical states in two replays (cfg {:?})",
                             hist_names(h0.s()), cfg)),
                         _ => {}
@@ -1042,7 +1055,7 @@ fn pass_nodedup(ci: usize, cfg: Cfg, d1: usize) -> (Acc, XTable) {
             }
             Some((d0, h0)) => {
                 if *d0 != d {
-                    vh::machinery_failure(&format!(
+                    guard_trip(format!(
                         "canonical state is not a sound abstraction: histories {:?} and {:?} (cfg {:?}) have equal canon but different successor canons/verdicts — a field is missing from canon()",
                         hist_names(h0.s()), hist_names(h.s()), cfg));
                 }
@@ -1098,11 +1111,11 @@ fn pass_dedup(ci: usize, cfg: Cfg, d2: usize, xtable: &XTable, d1: usize) -> (Ac
                 // the dedup pass must agree with the no-dedup pass on every state both visited
                 for (c, d, h) in std::mem::take(&mut acc.xc) {
                     match xtable.get(&c) {
-                        Some((d0, h0)) if *d0 != d => vh::machinery_failure(&format!(
+                        Some((d0, h0)) if *d0 != d => guard_trip(format!(
                             "dedup/no-dedup disagreement at canon reached by {:?} / {:?} (cfg {:?})",
                             hist_names(h0.s()), hist_names(h.s()), cfg)),
                         Some(_) => xchecked += 1,
-                        None => vh::machinery_failure(&format!(
+                        None => guard_trip(format!(
                             "dedup pass reached a canonical state at depth {} (history {:?}) that the no-dedup pass never saw (cfg {:?})",
                             h.n, hist_names(h.s()), cfg)),
                     }
@@ -1310,6 +1323,15 @@ fn main() {
         vh::machinery_failure("vacuous run: too few states/histories");
     }
 
+    {
+        let trips = GUARD_TRIPS.lock().unwrap();
+        if let Some(first) = trips.first() {
+            if total.viols.is_empty() {
+                vh::machinery_failure(first);
+            }
+            rep.set("search_guards_tripped_alongside_violations", json!(trips.clone()));
+        }
+    }
     // violations: one per signature, shortest counterexample
     let mut vs: Vec<_> = total.viols.iter().collect();
     vs.sort_by_key(|(s, (_, ci, h, _))| (h.n, *ci, h.s().to_vec(), (*s).clone()));
